@@ -204,7 +204,7 @@ def tlc_parallel(jobs, par=None):
     return res
 
 
-def check_records(module, consts, recs, spec="CheckSpec", chunks=None, timeout=900, name=None):
+def check_records(module, consts, recs, spec="CheckSpec", chunks=None, timeout=900, name=None, extra_files=None):
     """Validate records (list of dicts, produced by the real code) with the ASSUME-based checker module `module`
     (see spec/FragCheck.tla). Returns (n_checked, [(index, problems)], [TlcResult])."""
     from concurrent.futures import ThreadPoolExecutor
@@ -220,7 +220,7 @@ def check_records(module, consts, recs, spec="CheckSpec", chunks=None, timeout=9
         path = write_input("%s-%s-%d.ndjson" % (name or module, os.getpid(), c), part)
         cfg = "SPECIFICATION %s\nCONSTANTS\n%s\n RecFile = \"%s\"\n" % (spec, consts, path)
         jobs.append((c * per, dict(module=module, cfg_text=cfg, name="%s-%d" % (name or module, c), workers=1,
-                                   deadlock=False, timeout=timeout)))
+                                   deadlock=False, timeout=timeout, extra_files=extra_files)))
     bad, results, checked = [], [], 0
 
     def one(job):
